@@ -122,6 +122,7 @@ def run_stream(cmd, lines, op_timeout, cwd=None):
             answers[pos] = "other oversized-answer (more than %d bytes): %s" % (MAX_ANSWER, buf[:200].decode("utf-8", "replace")); pos += 1
         elif timed_out:
             proc.kill(); proc.wait()
+            crashes += 2        # a hang costs the whole time limit: the budget allows a third as many of them
             answers[pos] = "timeout"; pos += 1
         elif dead:
             rc = proc.wait()
